@@ -1,1 +1,177 @@
-//! TODO
+//! io::Write sinks that log every call and follow an acceptance / fault policy.
+use crate::rng::Rng;
+use std::cell::RefCell;
+use std::io::{self, ErrorKind, Write};
+use std::rc::Rc;
+
+#[derive(Clone, Debug, PartialEq)]
+pub enum Outcome {
+    Accepted(usize),
+    Interrupted,
+    Failed(ErrorKind),
+    Zero,
+}
+
+#[derive(Clone, Debug)]
+pub struct Event {
+    /// true = write, false = flush
+    pub write: bool,
+    pub offered: usize,
+    pub outcome: Outcome,
+    /// which builder call was in progress (set by the harness through `set_phase`)
+    pub phase: usize,
+    /// sink offset before the call
+    pub offset: usize,
+}
+
+#[derive(Clone, Debug)]
+pub enum Fault {
+    Err(ErrorKind),
+    Zero,
+}
+
+#[derive(Clone, Debug)]
+pub enum Policy {
+    /// accept everything
+    Full,
+    /// accept at most n bytes per call
+    Cap(usize),
+    /// acceptance lengths, cyclic (each clamped to 1..=offered)
+    Script(Vec<usize>),
+    /// accept a single byte at write call p, everything otherwise
+    ShortAt(usize),
+    /// return Interrupted once at each listed write call index (then the retry is accepted)
+    InterruptAt(Vec<usize>),
+    /// return Interrupted on every k-th write call
+    InterruptEvery(usize),
+    /// random acceptance lengths and random interrupts
+    Random(u64),
+    /// fail write call number i (counting every write call) with the fault; everything else accepted
+    FailWriteAt(usize, Fault),
+    /// fail the first flush
+    FailFlush(ErrorKind),
+}
+
+pub struct Inner {
+    pub data: Vec<u8>,
+    pub log: Vec<Event>,
+    pub policy: Policy,
+    pub wcalls: usize,
+    pub phase: usize,
+    pub rng: Rng,
+    pub failed: bool,
+    pub flushed_after_last_write: bool,
+}
+
+#[derive(Clone)]
+pub struct Sink(pub Rc<RefCell<Inner>>);
+
+impl Sink {
+    pub fn new(policy: Policy) -> Sink {
+        let seed = if let Policy::Random(s) = policy { s } else { 0 };
+        Sink(Rc::new(RefCell::new(Inner { data: vec![], log: vec![], policy, wcalls: 0, phase: 0, rng: Rng::new(seed, 0x51), failed: false, flushed_after_last_write: true })))
+    }
+    pub fn set_phase(&self, p: usize) {
+        self.0.borrow_mut().phase = p;
+    }
+    pub fn accepted(&self) -> usize {
+        self.0.borrow().data.len()
+    }
+    pub fn data(&self) -> Vec<u8> {
+        self.0.borrow().data.clone()
+    }
+    pub fn log(&self) -> Vec<Event> {
+        self.0.borrow().log.clone()
+    }
+    pub fn write_calls(&self) -> usize {
+        self.0.borrow().wcalls
+    }
+}
+
+impl Write for Sink {
+    fn write(&mut self, buf: &[u8]) -> io::Result<usize> {
+        let mut s = self.0.borrow_mut();
+        let call = s.wcalls;
+        s.wcalls += 1;
+        let offset = s.data.len();
+        let phase = s.phase;
+        let offered = buf.len();
+        if offered == 0 {
+            s.log.push(Event { write: true, offered, outcome: Outcome::Accepted(0), phase, offset });
+            return Ok(0);
+        }
+        let pol = s.policy.clone();
+        let outcome = match pol {
+            Policy::Full => Outcome::Accepted(offered),
+            Policy::Cap(n) => Outcome::Accepted(offered.min(n.max(1))),
+            Policy::Script(v) => Outcome::Accepted(v[call % v.len()].max(1).min(offered)),
+            Policy::ShortAt(p) => Outcome::Accepted(if call == p { 1 } else { offered }),
+            Policy::InterruptAt(v) => {
+                if v.contains(&call) {
+                    Outcome::Interrupted
+                } else {
+                    Outcome::Accepted(offered)
+                }
+            }
+            Policy::InterruptEvery(k) => {
+                if call % k.max(2) == k.max(2) - 1 {
+                    Outcome::Interrupted
+                } else {
+                    Outcome::Accepted(offered)
+                }
+            }
+            Policy::Random(_) => {
+                if s.rng.below(5) == 0 {
+                    Outcome::Interrupted
+                } else if s.rng.below(3) == 0 {
+                    Outcome::Accepted(offered)
+                } else {
+                    Outcome::Accepted(1 + s.rng.usize(offered))
+                }
+            }
+            Policy::FailWriteAt(i, f) => {
+                if call == i {
+                    match f {
+                        Fault::Err(k) => Outcome::Failed(k),
+                        Fault::Zero => Outcome::Zero,
+                    }
+                } else {
+                    Outcome::Accepted(offered)
+                }
+            }
+            Policy::FailFlush(_) => Outcome::Accepted(offered),
+        };
+        s.log.push(Event { write: true, offered, outcome: outcome.clone(), phase, offset });
+        match outcome {
+            Outcome::Accepted(n) => {
+                s.data.extend_from_slice(&buf[..n]);
+                s.flushed_after_last_write = false;
+                Ok(n)
+            }
+            Outcome::Interrupted => Err(io::Error::new(ErrorKind::Interrupted, "injected interrupt")),
+            Outcome::Failed(k) => {
+                s.failed = true;
+                Err(io::Error::new(k, "injected fault"))
+            }
+            Outcome::Zero => {
+                s.failed = true;
+                Ok(0)
+            }
+        }
+    }
+    fn flush(&mut self) -> io::Result<()> {
+        let mut s = self.0.borrow_mut();
+        let offset = s.data.len();
+        let phase = s.phase;
+        if let Policy::FailFlush(k) = s.policy.clone() {
+            if !s.failed {
+                s.failed = true;
+                s.log.push(Event { write: false, offered: 0, outcome: Outcome::Failed(k), phase, offset });
+                return Err(io::Error::new(k, "injected flush fault"));
+            }
+        }
+        s.flushed_after_last_write = true;
+        s.log.push(Event { write: false, offered: 0, outcome: Outcome::Accepted(0), phase, offset });
+        Ok(())
+    }
+}
